@@ -195,7 +195,7 @@ def monLoad (a : Ast ν) (obs : LoadObs ν) : List String :=
   let wf := wfNamesB a && !dang && acyclicB a
   match obs with
   | .loaded mts h t =>
-    (if dang then ["refuses_dangling{loaded}"] else []) ++
+    (if wfNamesB a && dang then ["refuses_dangling{loaded}"] else []) ++
     (if wf && !(mts.all (fun m => (specMsg a m).isSome) && a.msgs.all (fun m => mts.contains m.1)
                 && h == a.header.isSome && t == a.trailer.isSome)
       then ["messages"] else [])
